@@ -2,6 +2,7 @@
 // M3: complete grids / complete enumerations (all d-digit mantissas x all decimal exponents for Round; all (l,m), l<=12).
 #include "mc/mc.hpp"
 #include "mc/exit_trap.hpp"
+#include "mc/purity.hpp"
 #include "libphysica/Special_Functions.hpp"
 #include <complex>
 using namespace libphysica;
@@ -283,6 +284,32 @@ static void harmonics(unsigned long long& unit)
 		}
 }
 
+// ---- call histories: every function of this property is a function of its arguments only ---------------------------------------
+static void histories(unsigned long long& unit)
+{
+	auto cx = [](std::complex<double> z) { return mc::hexd(z.real()) + "," + mc::hexd(z.imag()); };
+	auto cv = [&](const std::vector<std::complex<double>>& v) { std::string o; for(auto& z : v) o += cx(z) + ";"; return o; };
+	std::vector<mc::PureLetter> L;
+	for(double x : {0.1, 0.19, 0.21, 1.5, 6.3, -2.2, 26.7}) L.push_back({"Dawson_Integral(" + mc::dec(x) + ")", [x]() { return mc::hexd(Dawson_Integral(x)); }});
+	for(double x : {0.15, 3.0, -26.7}) L.push_back({"Erfi(" + mc::dec(x) + ")", [x]() { return mc::hexd(Erfi(x)); }});
+	for(double p : {0.3, -0.9, 0.999999, 1e-5}) L.push_back({"Inv_Erf(" + mc::dec(p) + ")", [p]() { return mc::hexd(Inv_Erf(p)); }});
+	L.push_back({"Round(123456.789,3)", []() { return mc::hexd(Round(123456.789, 3)); }});
+	L.push_back({"Round(-0.00012345,2)", []() { return mc::hexd(Round(-0.00012345, 2)); }});
+	L.push_back({"Round(9.995e10,3)", []() { return mc::hexd(Round(9.995e10, 3)); }});
+	L.push_back({"Round(2.5,1)", []() { return mc::hexd(Round(2.5, 1)); }});
+	L.push_back({"Floats_Equal(1,1+1e-9,1e-8)", []() { return std::to_string(Floats_Equal(1.0, 1 + 1e-9, 1e-8)); }});
+	L.push_back({"Relative_Difference(3,-5)", []() { return mc::hexd(Relative_Difference(3.0, -5.0)); }});
+	for(auto lm : std::vector<std::pair<int, int>>{{0, 0}, {1, 1}, {2, -1}, {5, 3}, {5, -3}, {12, 12}})
+	{
+		int l = lm.first, m = lm.second;
+		std::string a = "(" + std::to_string(l) + "," + std::to_string(m) + ",0.7,2.1)";
+		L.push_back({"Spherical_Harmonics" + a, [=]() { return cx(Spherical_Harmonics(l, m, 0.7, 2.1)); }});
+		L.push_back({"VSH_Y" + a, [=]() { return cv(Vector_Spherical_Harmonics_Y(l, m, 0.7, 2.1)); }});
+		L.push_back({"VSH_Psi" + a, [=]() { return cv(Vector_Spherical_Harmonics_Psi(l, m, 0.7, 2.1)); }});
+	}
+	g_cases += mc::purity("histories", L, mc::thorough() ? 3 : 2, unit);
+}
+
 int main(int argc, char** argv)
 {
 	mc::init(argc, argv);
@@ -294,6 +321,7 @@ int main(int argc, char** argv)
 	if(mc::shard0()) simple_functions();
 	harmonics(unit);
 	rounding(unit);
+	histories(unit);
 	mc::count("evaluations", g_cases);
 	mc::count("distinct_nontrivial", g_cases);
 	if(mc::shard0()) mc::sample("Round(x,3) for x = 9995*10^-3-ulp, 9.995, 9.995+ulp: odd, idempotent, monotone, within half a unit of the third digit; Vector_Spherical_Harmonics_Psi(7,-3,theta,phi) vs theta^ dY/dtheta + phi^ (im/sin theta) Y");
